@@ -167,7 +167,7 @@ Section Step.
     lock s = Some (i, depth t) /\ class_ok t (classes s) /\
     t_cur t <= t_tgt t /\ t_tgt t < length ct /\ cur_ok t (getc (t_cur t) (classes s)).
   Proof.
-    intros HI Hi Hin. pose proof HI as [HL [HC [HT HK]]]. destruct (HT i t Hi) as [[Hle [Hlt _]] _].
+    intros HI Hi Hin. pose proof HI as [HL [HC [HT HK]]]. destruct (HT i t Hi) as [[[Hle _] [Hlt _]] _].
     assert (Hd : 1 <= depth t) by (unfold depth; lia).
     destruct (must_hold ct s i t HI Hi Hd) as [Hlock Hcl].
     split; [auto|split; [auto|split; [auto|split; [auto|]]]].
@@ -467,7 +467,7 @@ Section Step.
     pose proof Htf as [Hle [Hlt [_ Hf]]]. rewrite Hp in Hf. destruct Hf as [Ec [Hs Hpub]].
     destruct (t_seen t) eqn:Es; [|congruence]. inversion H; subst; clear H.
     apply inv_nw with (t := t); auto.
-    - tf t Htf. auto.
+    - tf t Htf. split; [auto|split; [lia|auto]].
     - unfold depth; simpl. rewrite Hp. reflexivity.
     - intro Hc. eapply class_ok_ph; eauto; simpl; [discriminate|].
       unfold BootstrapInv.cur_ok; simpl. rewrite Hp. auto.
@@ -540,12 +540,84 @@ Section Step.
     assert (Hall : forall y, y <= t_tgt t -> complete y (getc y (classes s))).
     { rewrite <- Ec. apply complete_down; auto. lia. }
     eapply inv_rebuild; eauto using mono_refl.
-    - tf t Htf. destruct w as [|p]; [|destruct (wrap (getc p (classes s)))]; simpl; auto.
-      split; [auto|split; [lia|auto]].
+    - tf t Htf. split; [auto|split; [lia|auto]].
     - intros j Hj Hh. rewrite Hlock in Hh. simpl in Hh. congruence.
-    - intros _. unfold depth; simpl. rewrite Ec, Nat.sub_diag.
-      destruct w as [|p]; [|destruct (wrap (getc p (classes s)))]; reflexivity.
+    - intros _. unfold depth; simpl. rewrite Ec, Nat.sub_diag. reflexivity.
     - apply quiet_all_of_class_ok with (t := t); auto.
+  Qed.
+
+  (* a class whose wrapper has been removed is completely bootstrapped *)
+  Definition wsound (y : nat) (k : cls) : Prop := wrap k = false -> complete y k.
+
+  Lemma quiet_wsound y k : quiet y k -> wsound y k.
+  Proof. intros [H|H] Hw; auto. rewrite H in Hw. discriminate. Qed.
+
+  Lemma cur_ok_wsound t k : cur_ok t k -> wsound (t_cur t) k.
+  Proof.
+    unfold BootstrapInv.cur_ok. destruct (t_ph t); intro H;
+      try (apply quiet_wsound; assumption);
+      try (apply quiet_wsound; right; assumption);
+      try (apply quiet_wsound; left; assumption);
+      intro Hw.
+    - destruct H as [_ H]. rewrite H in Hw. discriminate.
+    - destruct H as [_ [_ H]]. rewrite H in Hw. discriminate.
+    - destruct H as [_ H]. rewrite H in Hw. discriminate.
+    - rewrite H in Hw. discriminate.
+    - rewrite H in Hw. discriminate.
+  Qed.
+
+  Lemma inv_wrap s y : Inv s -> y < length ct -> wsound y (getc y (classes s)).
+  Proof.
+    intros [_ [_ [Ht Hl]]] Hy. destruct (lock s) as [[i d]|].
+    - destruct Hl as [_ [t [Hn [_ Hc]]]]. destruct (Ht i t Hn) as [[[Hle _] _] _].
+      destruct (Hc y Hy) as [H1 [H2 [H3 H4]]].
+      destruct (lt_eq_lt_dec y (t_cur t)) as [[L|E]|L].
+      + apply quiet_wsound, H1; auto.
+      + subst. apply cur_ok_wsound; auto.
+      + destruct (le_lt_dec y (t_tgt t)).
+        * apply quiet_wsound; left; apply H3; lia.
+        * apply quiet_wsound, H4; lia.
+    - apply quiet_wsound; auto.
+  Qed.
+
+  Lemma next_wrap_some cl w p : next_wrap cl w = Some p -> p < w /\ wrap (getc p cl) = true.
+  Proof.
+    induction w as [|q IH]; simpl; [discriminate|].
+    destruct (wrap (getc q cl)) eqn:E; intro H.
+    - inversion H; subst. auto.
+    - destruct (IH H). split; [lia|auto].
+  Qed.
+
+  Lemma next_wrap_none cl w : next_wrap cl w = None -> forall p, p < w -> wrap (getc p cl) = false.
+  Proof.
+    induction w as [|q IH]; simpl; intros H p Hp; [lia|].
+    destruct (wrap (getc q cl)) eqn:E; [discriminate|].
+    destruct (Nat.eq_dec p q); [subst; auto|apply IH; auto; lia].
+  Qed.
+
+  Lemma step_WNext s i t w :
+    Inv s -> nth_error (threads s) i = Some t -> t_ph t = WNext w -> Step s i t.
+  Proof.
+    intros HI Hi Hp cl' l' t' e H. unfold tstep in H. rewrite Hp in H.
+    pose proof HI as [HL [HC [HT HK]]]. destruct (HT i t Hi) as [Htf Hnh].
+    pose proof Htf as [Hle [Hlt [Hob Hf]]]. rewrite Hp in Hf. destruct Hf as [Ec [Hw Hall]].
+    destruct (next_wrap (classes s) w) as [p|] eqn:En; inversion H; subst; clear H.
+    - destruct (next_wrap_some _ _ _ En) as [Hpw _].
+      apply inv_nw with (t := t); auto.
+      + split; [simpl; lia|]. split; [simpl; auto|]. split; [apply (obs_same t); auto|simpl; exact I].
+      + unfold depth; simpl. rewrite Hp. reflexivity.
+      + intro Hc. apply class_ok_ph with (t := t);
+          [exact Hc|reflexivity|reflexivity|simpl; discriminate|
+           unfold BootstrapInv.cur_ok; simpl; rewrite Hp; auto].
+    - apply inv_nw with (t := t); auto.
+      + tf t Htf. split; [auto|].
+        destruct (le_lt_dec w (t_tgt t)) as [L|L]; [auto|].
+        apply complete_down; auto.
+        apply (inv_wrap s (t_tgt t) HI Hlt). apply (next_wrap_none _ _ En). lia.
+      + unfold depth; simpl. rewrite Hp. reflexivity.
+      + intro Hc. apply class_ok_ph with (t := t);
+          [exact Hc|reflexivity|reflexivity|simpl; discriminate|
+           unfold BootstrapInv.cur_ok; simpl; rewrite Hp; auto].
   Qed.
 
   Lemma step_ObsInst s i t :
@@ -591,6 +663,7 @@ Section Step.
     - eapply step_WAcq; eauto.
     - eapply step_WRemove; eauto.
     - eapply step_WRel; eauto.
+    - eapply step_WNext; eauto.
     - eapply step_ObsInst; eauto.
     - unfold tstep in H. rewrite Hp in H. discriminate.
   Qed.
